@@ -143,6 +143,7 @@ def handle (w : World) (line : String) : World × String :=
       | .ok (w', k) => (w', "ok " ++ toString k)
       | .error e => (w, "err " ++ e.name)
     | _, _ => (w, "bad-op")
+  | ["log", _level] => (w, "ok")     -- the logging level is no input of anything that is sent
   | ["dict", h] =>
     match parseHdrs h with
     | some hs => let (w', k) := w.newDict hs; (w', "ok " ++ toString k)
@@ -153,7 +154,9 @@ def handle (w : World) (line : String) : World × String :=
     -- the opener raises after it was handed the request: nothing of what the request did is undone
     let (w', r) := doReq w c h method
     let name := if fail = "url" then "URLError" else if fail = "http" then "HTTPError"
-      else if fail = "timeout" then "TimeoutError" else "RuntimeError"
+      else if fail = "timeout" then "TimeoutError" else if fail = "disc" then "RemoteDisconnected"
+      else if fail = "reset" then "ConnectionResetError" else if fail = "pipe" then "BrokenPipeError"
+      else "RuntimeError"
     (w', if r.startsWith "sent " then r ++ " raised " ++ name else r)
   | ["burst", c, n] =>
     match c.toNat?, n.toNat? with
